@@ -219,8 +219,9 @@ def validate(defn):
 PROBES = {
     # Hand-written rejected definitions whose top-level shape is fine but which the engine cannot interpret further.
     # Each entry: definition, worker script, input.  The first five were left RUNNING for ever before the repairs
-    # recorded in known_findings.json ("fixed"); they must now end FAILED.  The last one is the recorded finding that
-    # remains: the exception is raised in a reply callback, outside every handler that could fail the execution.
+    # recorded in known_findings.json ("fixed"); they must now end FAILED.  The last two are the recorded findings that
+    # remain: the exception is raised in notify() outside the handlers' try blocks (the dispatcher can only drop the
+    # event) or in a reply callback, outside every handler that could fail the execution.
     "state-is-not-an-object": ({"StartAt": "A", "States": {"A": 1}}, {}, {}),
     "state-without-type": ({"StartAt": "A", "States": {"A": {"End": True}}}, {}, {}),
     "type-not-a-string": ({"StartAt": "A", "States": {"A": {"Type": 5, "End": True}}}, {}, {}),
@@ -229,6 +230,8 @@ PROBES = {
     "parallel-parameters-unparsable": ({"StartAt": "P", "States": {"P": {
         "Type": "Parallel", "Parameters": {"x.$": "Z"}, "End": True,
         "Branches": [{"StartAt": "B", "States": {"B": {"Type": "Pass", "End": True}}}]}}}, {}, {}),
+    "timeoutseconds-not-a-number": ({"StartAt": "A", "States": {"A": {"Type": "Pass", "End": True}}, "TimeoutSeconds": [1]},
+                                    {}, {}),
     "retrier-without-errorequals": ({"StartAt": "A", "States": {"A": {
         "Type": "Task", "Resource": "arn:aws:rpcmessage:local::function:f1", "Retry": [{"IntervalSeconds": 2}],
         "End": True}}}, {"f1": [{"err": "E.X"}]}, {}),
